@@ -48,6 +48,7 @@ class Check:
         self.distinct = set()
         self.rule = ""
         self.findings = load_findings(pid)
+        self._vals = {}            # (spec, cfg) -> (validation result, up to 3 accepted traces) for the binding self-test
         os.makedirs(os.path.join(REPLAYS, pid), exist_ok=True)
         for f in os.listdir(os.path.join(REPLAYS, pid)):          # replays of earlier runs are stale
             try:
@@ -87,6 +88,12 @@ class Check:
         self.validated += res["n"]
         self.trace_states += res["distinct"]
         bad = {}
+        if res.get("spec") and (res["spec"], res["cfg"]) not in self._vals:
+            rej = {k for (k, *_r) in res["rejected"]} | {k for (_n, k, _t) in res["inv"]}
+            okt = [t for i, t in enumerate(traces) if i not in rej and len(t["ev"]) >= 1]
+            if okt:
+                okt.sort(key=lambda t: -len(t["ev"]))
+                self._vals[(res["spec"], res["cfg"])] = (res, okt[:1] + okt[len(okt) // 2:len(okt) // 2 + 1] + okt[-1:])
         for (k, tid, matched, of, nxt) in res["rejected"]:
             bad.setdefault(k, []).append(f"rejected at event {matched + 1}/{of}: {nxt[:300]}")
         for (name, k, tid) in res["inv"]:
@@ -116,7 +123,47 @@ class Check:
             self.samples.append(s)
 
     # ---------------------------------------------------------------- finish
+    # ---------------------------------------------------------------- binding self-test
+    def selftest(self):
+        """Demonstrate that the trace specifications constrain what was recorded: for accepted traces of this run, drop one
+        event / corrupt the integer and boolean fields of one event and let TLC judge the mutants.  Reported in the evidence;
+        a trace specification that accepts every mutant is a machinery failure."""
+        out = []
+        for (spec, cfg), (res, traces) in self._vals.items():
+            muts = []
+            for t in traces:
+                ev = t["ev"]
+                n = len(ev)
+                for i in sorted({0, (n - 1) // 2, max(n - 2, 0)}):
+                    if n >= 2 and i < n - 1:
+                        muts.append({"id": f"{t['id']}#drop{i}", "ev": ev[:i] + ev[i + 1:]})
+                for i in sorted({0, (n - 1) // 2, n - 1}):
+                    e = ev[i]
+                    if not isinstance(e, dict):
+                        continue
+                    for tag, f in (("up", lambda v: 7 * abs(v) + 13), ("down", lambda v: -1 - abs(v))):
+                        e2 = {k: ((not v) if isinstance(v, bool) else f(v) if isinstance(v, int) else v) for k, v in e.items()}
+                        if e2 != e:
+                            muts.append({"id": f"{t['id']}#corrupt{i}{tag}", "ev": ev[:i] + [e2] + ev[i + 1:]})
+            if not muts:
+                continue
+            try:
+                r = tlc.validate(spec, cfg, muts, extra_env=res.get("extra_env"), heap=res.get("heap", "6g"), dfs=res.get("dfs", False), timeout=900)
+                bad = {k for (k, *_r) in r["rejected"]} | {k for (_n, k, _t) in r["inv"]}
+                acc = [m["id"] for i, m in enumerate(muts) if i not in bad]
+                out.append(dict(spec=spec, cfg=cfg, mutants=len(muts), not_accepted=len(muts) - len(acc), accepted=acc[:12]))
+                if len(acc) == len(muts):
+                    raise tlc.MachineryError(f"binding self-test: {spec}/{cfg} accepted all {len(muts)} corrupted traces")
+            except tlc.MachineryError as ex:
+                if "accepted all" in str(ex):
+                    raise
+                out.append(dict(spec=spec, cfg=cfg, mutants=len(muts), not_accepted=len(muts), accepted=[],
+                                note="TLC could not evaluate the corrupted batch (evaluation error on corrupted input): none accepted"))
+        return out
+
     def finish(self):
+        if not os.environ.get("VERIF_NO_SELFTEST"):
+            self.extra["binding_selftest"] = self.selftest()
         wall = time.time() - self.t0
         cov = dict(self.extra)
         cov.update(
